@@ -186,6 +186,14 @@ class C09(PropBase):
         world, view = gen.gen_world(rng, cfg)
         mods = [m["name"] for m in world["modules"]]
         env = self.base_env(rng, fault_free=True)
+        # one name bound to different classes in every module: the same reference *text* means
+        # different types for different callers
+        same = []
+        for mi, m in enumerate(world["modules"]):
+            fields = [{"n": "a", "t": {"k": "int"}}] if mi == 0 else [{"n": "label", "t": {"k": "str"}}, {"n": "price", "t": {"k": "dec"}}]
+            fields.append({"n": "kids", "t": {"k": "list", "a": {"k": "ref", "m": m["name"], "n": "VwSame"}}, "factory": "list"})
+            m["decls"].append({"d": "dataclass", "n": "VwSame", "fields": fields, "flags": {}})
+            same.append({"k": "ref", "m": m["name"], "n": "VwSame"})
         # the bare None annotation is not a type object (NoneType is); C15 covers it
         roots = [t for t in gen.root_types(view, rng, cfg, rng.randint(1, 4)) if t["k"] != "none"] or [{"k": "int"}]
         steps = []
@@ -205,6 +213,10 @@ class C09(PropBase):
             t = rng.choice(roots)
             sp = rng.choice(SPELLINGS) if "spelling" in sw else rng.choice(["type", "type", "itertypes"])
             step = {"op": "graph", "t": t, "spelling": sp, "mod": _home(t, mods, rng)}
+            if len(same) > 1 and rng.random() < 0.3:
+                # the bare name, issued from its own module: 'VwSame' (same text from every module)
+                t = rng.choice(same)
+                step = {"op": "graph", "t": t, "spelling": rng.choice(["str", "str", "fref", "type"]), "mod": t["m"]}
             if "stack" in sw and rng.random() < 0.2:
                 step["depth"] = rng.randint(1, 30)
             steps.append(step)
